@@ -8,7 +8,8 @@ LEVEL_TEXT = ("DecoderOK, type and label constants and span = whole expression a
               "(group 1 of the pattern without its two quotes; a clause over the comprehension body's `match`); the evaluated value of concatenation and replace-all is "
               "checked by the bounded value oracle over generated literals, separators and quoting styles")
 LEVEL_NOTE = ("value exactness of concat / replace is bounded only: it needs the transfer of L(CONCAT_RE) through re.sub, which is not discharged; bytes reversal is the uninterpreted REV shared by "
-              "code (s[-2:0:-1]) and specification; bytes.replace is the specification's own 'every occurrence' primitive")
+              "code (s[-2:0:-1]) and specification; bytes.replace is the specification's own 'every occurrence' primitive; the languages of STRING_RE, CONCAT_SPACER_RE, CONCAT_RE, REVERSE_RE and STRREVERSE_RE are pinned "
+              "(pin/<CONSTANT>, proved) - a pin says nothing about WHICH alternative the engine prefers (ordered alternation), which the value oracle covers")
 DESIGN_REF = "DESIGN.md 6 (C15)"
 FUNCTIONS = ["multidecoder.decoders.concat.find_concat", "multidecoder.decoders.reverse.find_reverse", "multidecoder.decoders.vba.find_strreverse",
              "multidecoder.decoders.replace.find_replace", "multidecoder.decoders.replace.find_powershell_replace",
